@@ -102,6 +102,19 @@ def make_target(target, timeout=1500):
 
 def coqc_file(path, timeout=600):
     rc, out = sh(f"coqc -Q {COQ}/theories NIR -w -notation-overridden {path}", timeout)
+    for _ in range(4):
+        # a compiled library left over from a run against ANOTHER tree (regenerated tables differ) that make did not see as
+        # out of date: drop exactly that file, rebuild it, and try again (seen once when alternating trees through NIR_REPO)
+        m = re.search(r"\(in file (\S+?\.vo)\)\s+makes inconsistent assumptions", out) if rc != 0 else None
+        if not m or not os.path.realpath(m.group(1)).startswith(os.path.realpath(COQ) + os.sep):
+            break
+        stale = os.path.realpath(m.group(1))
+        try:
+            os.remove(stale)
+        except OSError:
+            break
+        make_target(os.path.relpath(stale, os.path.realpath(COQ)))
+        rc, out = sh(f"coqc -Q {COQ}/theories NIR -w -notation-overridden {path}", timeout)
     return rc, out
 
 
